@@ -19,6 +19,9 @@ ALLOWED = {
     "ok": r"200", "refuse": r"502", "hang": r"502", "garbage": r"502", "s500": r"500", "i503": r"503", "upg": r"200",
     "reset": r"200-then-broken\(\d+\)", "short": r"200-then-broken\(\d+\)", "stall": r"200-then-broken\(\d+\)",
     "slow": r"200", "cau": r"client-aborted-upload", "cad": r"client-aborted-download|200",
+    # the same through a client that accepts gzip: the plugin holds status and body until the handler is done, so a
+    # response cut mid-body is a connection closed before any answer
+    "okz": r"200", "shortz": r"200-then-broken\(\d+\)|closed-before-response", "resetz": r"200-then-broken\(\d+\)|closed-before-response",
 }
 GATES = r"429|503"
 BOUND_MS = 2900   # server/handler timeouts are 2 s, backend dial/read 1 s: generous slack for a loaded box
@@ -51,7 +54,18 @@ def targeted(strategy):
     eps.append(["ft new %s 0 0 1 0" % strategy, "ft health 700", "ft wait 1200", "ft req s500", "ft req s500", "ft req s500",
                 "ft wait 400", "ft req s500", "ft req s500", "ft req s500", "ft wait 900", "ft req s500", "ft req s500", "ft req s500",
                 "ft health 0", "ft probe"])
+    # a response cut mid-body while a buffering plugin holds it, then clean requests through the same plugin instance:
+    # each gets its own answer and nothing of the dead one
+    # (pooled buffers are per scheduler thread: the pattern is repeated so that a buffer handed back by a dead exchange is
+    # drawn again by a later one whichever thread serves it)
+    eps.append(["ft new %s 0 0 0 1" % strategy] + ["ft req shortz", "ft req okz", "ft req resetz", "ft req okz", "ft req okz"] * 8 + ["ft probe"])
     return eps
+
+
+def long_episode(strategy):
+    """timeouts of several seconds (closer to the documented defaults): a silent backend is given up on after 6 s;
+    the requests after it are served at once"""
+    return ["ft new %s 0 0 4 0" % strategy, "ft req ok", "ft req hang", "ft req ok", "ft req ok", "ft probe"]
 
 
 def gen_conc(rng, strategy, toggles):
@@ -88,9 +102,10 @@ def oracle(ep, outs):
             canon, _, detail = o.partition(" || ")
             d = fields(detail)
             if canon != "ended=1":
-                fails.append("a faulted request was still open after 5 s although every timeout is <= 2 s: %s -> %s" % (line, detail))
+                lim = ("10 s", "8 s") if lines[0].split()[5] == "4" else ("5 s", "2 s")
+                fails.append("a faulted request was still open after %s although every timeout is <= %s: %s -> %s" % (lim + (line, detail)))
                 continue
-            if int(d.get("ms", "0")) > BOUND_MS:
+            if int(d.get("ms", "0")) > (BOUND_MS + 5000 if lines[0].split()[5] == "4" else BOUND_MS):
                 fails.append("a faulted request ended only after %s ms (timeouts <= 2 s): %s" % (d.get("ms"), line))
             cls = d.get("class", "")
             if not re.fullmatch("(%s)|(%s)" % (ALLOWED.get(w[2], "200"), GATES), cls):
@@ -156,6 +171,7 @@ def check(ctx):
         eps.append(gen_conc(ctx.rng, STRATS[(i + 2) % 5], toggles_all[(i + 1) % len(toggles_all)]))
     for i, st in enumerate(STRATS if thorough else [STRATS[ctx.seed % 5]]):
         eps += targeted(st)
+        eps.append(long_episode(st))
     eps = C.load_corpus(ID) + eps
     # episodes are independent and mostly wait: run them in parallel slices, one process each
     k = 8
